@@ -53,6 +53,12 @@ BaseIter(_mesh, _ref_h, _max_laps) {
 
     assert(_mesh->valence(_ref_h) == 4);
 
+    if(!_mesh->has_face_bottom_up_incidences()) {
+        cur_index_ = 0;
+        BaseIter::valid(false);
+        return;
+    }
+
     const auto& cell_vhs = _mesh->get_cell_vertices(_ref_h);
     vertices_[0] = cell_vhs[0];
     vertices_[1] = cell_vhs[1];
